@@ -21,13 +21,14 @@ Definition heap := list obj.          (* location = position; dom h = [0, length
 Definition oracle := list nat.
 Definition env := list (string * val).
 
-Inductive atom := AImm | AVar (x : string).
+Inductive atom := AImm | AAbs | AVar (x : string).   (* AAbs: unset dict slot *)
 Inductive idx := IConst (n : nat) | ILast | IOr.
 
 Inductive rhs :=
 | RAtom (a : atom)                          (* alias / immediate *)
 | RIdx (x : string) (i : idx)               (* alias: x[i], x.field *)
-| RCopy (x : string)                        (* fresh: list(x), x[:], x.copy(), list(reversed(x)) *)
+| RCopy (x : string)                        (* fresh: list(x), x[:], x.copy(), sorted(x) (shape) *)
+| RRevCopy (x : string)                     (* fresh: list(reversed(x)) *)
 | RSlice (x : string)                       (* fresh: x[a:b], bounds from the oracle *)
 | RConcat (x y : string)                    (* fresh: x + y *)
 | RDisplay (es : list atom)                 (* fresh: [..], (..), {..}, constructor call *)
@@ -87,7 +88,7 @@ Fixpoint update {A} (l : list A) (n : nat) (a : A) : list A :=
 Definition alloc (h : heap) (o : obj) : val * heap := (VLoc (length h), h ++ [o]).
 
 Definition eval_atom (e : env) (a : atom) : option val :=
-  match a with AImm => Some VImm | AVar x => lookup e x end.
+  match a with AImm => Some VImm | AAbs => Some VAbsent | AVar x => lookup e x end.
 
 Fixpoint eval_atoms (e : env) (l : list atom) : option (list val) :=
   match l with
@@ -156,6 +157,11 @@ Definition eval_rhs (e : env) (h : heap) (o : oracle) (r : rhs) : option (val * 
   | RCopy x =>
       match get_obj e h x with
       | Some (_, ob) => let '(v, h') := alloc h ob in Some (v, h', o)
+      | None => None
+      end
+  | RRevCopy x =>
+      match get_obj e h x with
+      | Some (_, ob) => let '(v, h') := alloc h (rev ob) in Some (v, h', o)
       | None => None
       end
   | RSlice x =>
@@ -375,7 +381,7 @@ Definition fresh_name (P : prog) (x : string) : bool :=
                     else true) (binds (body P)).
 
 Definition atom_fresh (P : prog) (a : atom) : bool :=
-  match a with AImm => true | AVar y => fresh_name P y end.
+  match a with AImm | AAbs => true | AVar y => fresh_name P y end.
 
 (* x names only displays, allocated by this activation, of objects allocated by
    this activation, and is never itself the target of a first-level mutation *)
